@@ -97,11 +97,31 @@ static void independence(World &w, int ri) {
   }
 }
 
+static void diff_line(const std::string &a, const std::string &b, std::string &la, std::string &lb) {
+  size_t pa = 0, pb = 0;
+  while (pa < a.size() || pb < b.size()) { size_t ea = a.find('\n', pa), eb = b.find('\n', pb); if (ea == std::string::npos) ea = a.size(); if (eb == std::string::npos) eb = b.size(); la = a.substr(pa, ea - pa); lb = b.substr(pb, eb - pb); if (la != lb) return; pa = ea + 1; pb = eb + 1; }
+  la = lb = "";
+}
+
+// one op on one replica, followed by the generic per-op oracles
+static void exec_on(World &w, const Op &o, int ri) {
+  Run &r = *w.run;
+  Dump B = w.r[ri].last;
+  bool handled = ops_core(w, o);
+  if (!handled) { r.ev("unknown op %s", o.kind.c_str()); return; }
+  if (!w.r[ri].live()) return;
+  observe(w, ri, w.r[ri].adopted ? "C19" : "C02");
+  generic_after(w, ri, B);
+  independence(w, ri);
+  r.ev("state r%d %016llx", ri, (unsigned long long)hash_str(w.r[ri].last_text));
+}
+
 struct TopoMachine : Machine {
   const char *name() override { return "topo"; }
   int nclasses(const std::string &prop) override { (void)prop; return 4; }   // XML back-end pairing, cached in statics per process
   void proc_setup(int pclass, const Plan *) override {
     setenv("HWLOC_LIBXML_IMPORT", (pclass & 1) ? "1" : "0", 1); setenv("HWLOC_LIBXML_EXPORT", (pclass & 2) ? "1" : "0", 1);
+    setenv("HWLOC_DONT_ADD_VERSION_INFO", "1", 1);   // otherwise every load appends hwlocVersion/ProcessName infos of this process
     setenv("HWLOC_HIDE_ERRORS", "2", 1);   // error verbosity is cached too; keep stderr quiet
     unsetenv("HWLOC_XMLFILE"); unsetenv("HWLOC_SYNTHETIC"); unsetenv("HWLOC_FSROOT"); unsetenv("HWLOC_COMPONENTS");
   }
@@ -132,20 +152,26 @@ struct TopoMachine : Machine {
     if (cfg.chance(1, 10)) flags |= HWLOC_TOPOLOGY_FLAG_DONT_CHANGE_BINDING;
     if (cfg.chance(1, 25)) flags |= 1UL << 20;   // illegal flag word: set_flags must refuse and leave the configuration alone
     char fb[32]; snprintf(fb, sizeof fb, "0x%lx", flags);
-    std::string cfgline = "filters=" + filters + " flags=" + fb + " lazy=" + std::to_string(cfg.chance(1, 3) ? 1 : 0) + " postcfg=" + std::to_string(cfg.chance(1, 4) ? 1 : 0);
+    std::string cfgline = "filters=" + filters + " flags=" + fb + " lazy=" + std::to_string(cfg.chance(1, 3) ? 1 : 0) + " postcfg=" + std::to_string(cfg.chance(1, 4) ? 1 : 0) + " udmarkup=" + std::to_string(cfg.chance(1, 12) ? 1 : 0);
     p.seth("cfg", cfgline);
     // op alphabet with per-property weights; a random third of the kinds is disabled per run (swarm)
     struct W { const char *k; int w; };
     std::vector<W> al = {{"restrict", 6}, {"insert_misc", 4}, {"group", 5}, {"allow", 2}, {"add_info", 2}, {"modify_infos", 3}, {"topo_info", 1}, {"set_subtype", 2}, {"refresh", 1}, {"set_userdata", 3}};
+    al.push_back({"dup", 0}); al.push_back({"xml_restart", 0}); al.push_back({"destroy", 0});
     if (prop == "C08") { al[0].w = 20; al[1].w = 8; }
+    if (prop == "C12") { al[10].w = 7; al[11].w = 1; al[12].w = 3; }
+    if (prop == "C05") { al[11].w = 7; al[10].w = 1; al[12].w = 2; }
+    if (prop == "C02") { al[10].w = 1; al[11].w = 1; al[12].w = 1; }
     if (prop == "C01") al.clear();
-    for (auto &x : al) if (cfg.chance(1, 3) && std::string(x.k) != "restrict") x.w = 0;
+    for (auto &x : al) { std::string xk = x.k; if (cfg.chance(1, 3) && xk != "restrict" && xk != "dup" && xk != "xml_restart") x.w = 0; }
     int total = 0; for (auto &x : al) total += x.w;
     int len = al.empty() ? 0 : (int)cfg.range(3, tier == "thorough" ? 40 : 25);
     for (int s = 0; s < len && total; s++) {
       int rr = (int)ops.below(total); const char *k = nullptr; for (auto &x : al) { if (rr < x.w) { k = x.k; break; } rr -= x.w; }
       Op o(k); o.set("r", (int64_t)ops.below(4));
       std::string ks = k;
+      if (ks != "dup" && ks != "xml_restart" && ks != "destroy" && ops.chance(1, 2)) o.set("both", 1);
+      if (ks == "xml_restart") o.set("via", (int64_t)ops.below(2)).set("v2", (int64_t)ops.below(8)).set("pre", (int64_t)ops.below(3));
       if (ks == "restrict") {
         int fl = 0; bool bynode = ops.chance(1, 3);
         if (bynode) { fl |= 8; if (ops.chance(1, 2)) fl |= 16; } else if (ops.chance(1, 2)) fl |= 1;
@@ -168,6 +194,7 @@ struct TopoMachine : Machine {
   // ------------------------------------------------------------------ execution
   void run(const Plan &p, Run &r) override {
     World w; w.run = &r; w.cfg.prop = p.prop; w.cfg.lazy = p.hki("cfg", "lazy", 0) != 0;
+    int pclass = (int)p.hki("proc", "class", 0); w.cfg.libxml_import = pclass & 1; w.cfg.libxml_export = pclass & 2; w.cfg.ud_markup = p.hki("cfg", "udmarkup", 0) != 0;
     struct Cleanup { World &w; ~Cleanup() { if (w.run->violated || w.run->cut) return; for (int i = 0; i < MAXREP; i++) destroy_replica(w, i); } } cl{w};
     g_step_budget = 2000000000ULL;
     r.curop = "load"; r.curopidx = -1; steps_reset();
@@ -178,15 +205,27 @@ struct TopoMachine : Machine {
     int idx = 0;
     for (const Op &o : p.ops) {
       r.curop = o.kind; r.curopidx = idx++; r.nops++; steps_reset();
+      bool repl_op = o.kind == "dup" || o.kind == "xml_restart" || o.kind == "destroy" || o.kind == "shm_adopt";
+      if (repl_op) { if (!ops_repl(w, o)) r.ev("unknown op %s", o.kind.c_str()); continue; }
       int ri = w.pick(o.u("r")); if (ri < 0) break;
-      Dump B = w.r[ri].last;
-      bool handled = ops_core(w, o);
-      if (!handled) { r.ev("unknown op %s", o.kind.c_str()); continue; }
+      exec_on(w, o, ri);
       if (!w.r[ri].live()) continue;
-      observe(w, ri, w.r[ri].adopted ? "C19" : "C02");
-      generic_after(w, ri, B);
-      independence(w, ri);
-      r.ev("state r%d %016llx", ri, (unsigned long long)hash_str(w.r[ri].last_text));
+      int tj = w.r[ri].twin;
+      if (tj >= 0 && w.r[tj].live() && w.r[tj].twin == ri) {
+        Replica &A = w.r[ri], &T = w.r[tj]; int kind = A.twin_kind; const char *own = kind == 1 ? "C12" : kind == 2 ? "C05" : "C19";
+        if (o.u("both")) {
+          // lock-step: the same op on the twin must keep the two replicas equivalent (catches lost hidden state such as next_gp_index or dont_merge)
+          Op o2 = o; int kth = 0; for (int i = 0; i < tj; i++) kth += w.r[i].live(); for (auto &kv : o2.kv) if (kv.first == "r") kv.second = std::to_string(kth);
+          exec_on(w, o2, tj);
+          r.count("probe.lockstep_ops");
+          std::string ta = A.last.text_norm(kind != 1), tb = T.last.text_norm(kind != 1);
+          bool eq = ta == tb;
+          if (!eq) { std::string la, lb; diff_line(ta, tb, la, lb); viol(w, own, "replica.lockstep_diverged", "the same op applied to both twins made them differ: '%s' vs '%s'", la.substr(0, 700).c_str(), lb.substr(0, 700).c_str()); }
+        } else {
+          bool eq = kind == 3 ? false : A.last.text_norm(kind != 1) == T.last.text_norm(kind != 1);
+          if (!eq) { A.twin = T.twin = -1; }
+        }
+      }
     }
     r.curop = "destroy"; r.curopidx = idx;
   }
